@@ -149,7 +149,7 @@ struct Explorer {
 		if (count) idx.insert(count - 1);
 		if (count > 2) idx.insert(2);
 		std::set<std::string> names = { "absent.xyz", "" };
-		for (std::size_t i = 0; i < count && i < 3; ++i) { auto g = mc::guarded([&] { names.insert(a0->GetName(i)); }); (void)g; }
+		for (std::size_t i = 0; i < count && i < 3; ++i) { auto g = mc::guarded([&] { std::string n = a0->GetName(i); names.insert(n); if (i == 0) { names.insert("./" + n); std::string u = n; for (auto& c : u) c = char(toupper(c)); names.insert(u); } }); (void)g; }
 		ops.push_back({ kGetCount, 0, "" });
 		for (auto i : idx) { ops.push_back({ kGetName, i, "" }); ops.push_back({ kGetSize, i, "" }); if (f.vol) ops.push_back({ kGetKind, i, "" }); ops.push_back({ kOpenStreamI, i, "" }); ops.push_back({ kExtractI, i, "" }); }
 		for (auto& n : names) { ops.push_back({ kGetIndex, 0, n }); ops.push_back({ kContains, 0, n }); ops.push_back({ kExtractN, 0, n }); ops.push_back({ kOpenStreamN, 0, n }); }
@@ -225,6 +225,7 @@ std::vector<mc::FaultSeed> volSeeds()
 		mk("vol_lzh", { M("a.txt", pay(4, 0x30)), m }, {});
 	}
 	{ ref::VolLayout lay; lay.unusedSlots = 2; lay.extraStringPad = 4; mk("vol_unused", { M("x.y", pay(2, 0x21)), M("z", pay(7, 0x22)) }, lay); }
+	mk("vol4", { M("Alpha_long-name.1.txt", pay(9, 0x31)), M("b", pay(4, 0x32)), M("MiXeD.Case", pay(0, 0)), M("zz top.bin", pay(13, 0x33)) }, {});
 	return s;
 }
 
@@ -235,6 +236,7 @@ std::vector<mc::FaultSeed> clmSeeds()
 	mk("clm0", {});
 	mk("clm1", { { "a", pay(4, 0x11) } });
 	mk("clm3", { { "ab", pay(2, 0x21) }, { "abcdefgh", pay(0, 0) }, { "c_1", pay(6, 0x31) } });
+	mk("clm2x8", { { "ABCDEFGH", pay(5, 0x41) }, { "z2345678", pay(3, 0x51) } });
 	return s;
 }
 
